@@ -376,7 +376,8 @@ def main():
         a = archs[ai]
         gran[ai] = (sorted(set(a.ifm_bank_granules.values()) | set(a.ifm_ew_bank_granules.values())),
                     sorted(set(a.accumulator_granules.values())))
-    n_core = 200000 if T else 8000
+    R = bool(ck.replay_arg)      # replay mode: only the recorded input is run
+    n_core = 0 if R else (200000 if T else 12000)
     for _ in range(n_core):
         ai = rng.randrange(nacc)
         ew = rng.choice([0, 0, 1, 2])
@@ -405,7 +406,7 @@ def main():
 
     # -------- B: try_block_config ------------------------------------------------------------------
     try_cases = []
-    n_try = 300000 if T else 12000
+    n_try = 0 if R else (300000 if T else 20000)
     bts_try = [BT["ConvolutionMxN"]] * 4 + [BT["ConvolutionDepthWise"]] * 2 + [BT["Pooling"]] * 2 + [BT["ElementWise"]] * 3 + \
         [BT["ReduceSum"], BT["VectorProduct"], BT["Default"]]
     for _ in range(n_try):
@@ -441,13 +442,13 @@ def main():
 
     # -------- C: find_block_config -----------------------------------------------------------------
     find_cases = []
-    n_find = 60000 if T else 3500
+    n_find = 0 if R else (60000 if T else 5000)
     bts_find = [BT["ConvolutionMxN"]] * 4 + [BT["ConvolutionDepthWise"]] * 2 + [BT["Pooling"]] * 2 + [BT["ElementWise"]] * 3 + \
         [BT["ReduceSum"], BT["VectorProduct"]]
     # dense part: all accelerators x op kinds x bits x lut x upscaling on a few small shapes
     dense_shapes = [(1, 1, 8), (1, 1, 1001), (3, 5, 16), (8, 8, 32), (16, 9, 20), (33, 2, 64)] if not T else \
         [(w, h, d) for w in (1, 2, 3, 8, 17, 33) for h in (1, 2, 5, 16, 40) for d in (1, 8, 16, 20, 64, 130)]
-    for ai in range(nacc):
+    for ai in range(0 if R else nacc):
         for bt in sorted(set(bts_find)):
             for bits in ((8, 16, 32) if bt in (BT["ElementWise"], BT["ReduceSum"]) else (8, 16)):
                 for lut in (0, 2):
@@ -495,7 +496,7 @@ def main():
 
     # -------- D/E: API operations -------------------------------------------------------------------
     op_cases = []
-    n_ops = 25000 if T else 1300
+    n_ops = 0 if R else (12000 if T else 2000)
 
     def mk_op(ai, kind, dtype, lut, upscale, quants, ofm, k=None, ifm_d=None, ew_mode=None, pk_first=None):
         w, h, d = ofm
@@ -557,7 +558,7 @@ def main():
 
     # dense grid over the discrete axes, small shapes
     small_shapes = [(w, h, d) for w in (1, 2, 5, 8, 13, 21, 34, 40) for h in (1, 2, 3, 7, 16, 22, 36, 40) for d in (1, 8, 16, 24, 40)]
-    for ai in range(nacc):
+    for ai in range(0 if R else nacc):
         for kind in KINDS:
             for dtype in (("i8", "i16", "i32") if kind in ("elementwise", "reduce_sum") else ("i8", "i16")):
                 for lut in (False, True):
@@ -573,7 +574,7 @@ def main():
                             op_cases.append(mk_op(ai, kind, dtype, lut, upscale, rand_quants(dtype), ofm))
     # the measured finding of DESIGN.md section 8 #12 (first case = the exact witness) and its neighbourhood
     near = [(2, (34, 20))] + [(rng.randrange(nacc), (rng.randint(8, 40), rng.randint(8, 40))) for _ in range(600 if T else 40)]
-    for n, (ai, ofm_wh) in enumerate(near):
+    for n, (ai, ofm_wh) in enumerate([] if R else near):
         o = mk_op(ai, "conv2d", "i16", False, "NONE", (1, 1, 1), (ofm_wh[0], ofm_wh[1], 16),
                   k=(3, 3, 1, 1, 1, 1), ifm_d=16, pk_first=False)
         if n == 0:
@@ -593,15 +594,182 @@ def main():
             kk[rng.choice([2, 3, 4, 5])] = 0
             o["kernel"] = tuple(kk)
         op_cases.append(o)
+    # excluded points of `offered_accepted` (a non-elementwise operation carrying a *scalar* IFM2): api.py passes the
+    # IFM2 Block, the generator passes None (theorem offered_needs_ifm2_witness).  Outside the property's quantifier
+    # ("scalar/broadcast elementwise"); run on the real code and reported in the evidence, not as violations.
+    n_excl = 300 if T else 25
+    for n in range(0 if R else n_excl):
+        ai = 2 if n == 0 else rng.randrange(nacc)
+        ofm = (16, 8, 16) if n == 0 else (rng.randint(8, 40), rng.randint(4, 32), rng.choice([8, 16, 32]))
+        o = mk_op(ai, "conv2d", "i8", False, "NONE", (2, 2, 2), ofm, k=(1, 1, 1, 1, 1, 1), ifm_d=32, pk_first=False)
+        o["ifm"] = (ofm[0], ofm[1], 32, 2)
+        o["ifm2"], o["scalar"], o["excluded"] = (32, 32, 8, 2), True, True
+        op_cases.append(o)
     n_full = 6 if T else 3
-    jobs = []
-    for o in op_cases:
-        jobs.append((o, sorted({0, rng.randrange(400), rng.randrange(60), rng.randrange(12)})[:n_full]))
-    api_real = pmap(pool, real_api, jobs, 8)
+
+    def api_real_str(r):
+        if r["offered"] == "build:err:assert":
+            return "err:assert"      # NpuKernel itself refuses a zero stride/dilation: nothing reaches the query
+        if isinstance(r["offered"], list):
+            return "ok " + " ".join("%d %d %d" % c for c in r["offered"])
+        return r["offered"]
+
+    disagreements = []      # (stream, request, model, implementation)
+    stats = {"gen": 0, "gen_ok": set(), "reg": 0, "full": 0, "full_other": 0, "refused": 0, "excluded_refused": 0,
+             "reg_fail": 0, "evals": 0}
+    unexplained = []
+    reg_fail_all = []
+    samples_api = []
+
+    def compare(name, reqs, ms, reals):
+        for rq, m, r in zip(reqs, ms, reals):
+            ck.count("%s:%s" % (name, r.split()[0].split(":")[0] + (":" + r.split(":")[1].split()[0] if r.startswith("err") else "")))
+            if name == "get_arch_block_config" and r.startswith("err:assert"):
+                r = "err:assert"
+            if m != r:
+                disagreements.append((name, rq, m, r))
+
+    def run_ops(batch):
+        jobs = [(o, sorted({0, rng.randrange(400), rng.randrange(60), rng.randrange(12)})[:n_full]) for o in batch]
+        api_real = pmap(pool, real_api, jobs, 8)
+        api_req = ["apicfg %d %s" % (o["acc"], op_tokens(o)) for o in batch]
+        gen_req, gen_real = [], []                      # one per offered config
+        reg_req, reg_ref = [], []                       # Spec on emitted registers (D and E)
+        verdict_req, verdict_ref = [], []
+        for oi, (o, r) in enumerate(zip(batch, api_real)):
+            if not isinstance(r["offered"], list):
+                continue
+            toks = op_tokens(o)
+            kind = o["kind"]
+            usage = 0 if kind != "elementwise" else (1 if (o["ifm2"] and not o["scalar"]) else 2)
+            kk = o["kernel"] or (1, 1, 1, 1, 1, 1)
+            pk = kind == "conv2d" and o["pk_first"]
+            view = view_tokens(usage, kind in ("depthwise", "pooling", "elementwise"), DT_BITS[o["dtype"]], o["ifm"][2], pk, kk,
+                               RS.index(o["upscale"]), o["ofm"][1], o["lut"])
+            for ci, (cfg, g) in enumerate(zip(r["offered"], r["gen"])):
+                gen_req.append("gencfg %d %s %d %d %d" % (o["acc"], toks, *cfg))
+                gen_real.append(g.split("|")[0] if g.startswith("ok") else g.split(":")[0] + ":" + g.split(":")[1])
+                accepted = g.startswith("ok")
+                if accepted:
+                    rs_ = g.split("|")[1].split()      # regs bh bw bd ib_end ab_start ib2|- fmt
+                    has2 = rs_[6] != "-"
+                    reg_req.append("regcheck %d %s %s %s %s %s %s %s %d %s" % (o["acc"], view, rs_[2], rs_[1], rs_[3], rs_[7], rs_[4],
+                                                                              rs_[5], int(has2), rs_[6] if has2 else "0"))
+                    reg_ref.append((oi, ci, "block-config path", g, cfg))
+                else:
+                    verdict_req.append("offerverdict %d %s %d %d %d 0" % (o["acc"], toks, *cfg))
+                    verdict_ref.append((oi, ci, g))
+            for j_, s_ in r["full"].items():
+                if s_.startswith("regs"):
+                    rs_ = s_.split()
+                    has2 = rs_[6] != "-"
+                    reg_req.append("regcheck %d %s %s %s %s %s %s %s %d %s" % (o["acc"], view, rs_[2], rs_[1], rs_[3], rs_[7], rs_[4],
+                                                                              rs_[5], int(has2), rs_[6] if has2 else "0"))
+                    reg_ref.append((oi, j_, "full stream", s_, r["offered"][j_]))
+        reqs = api_req + gen_req + reg_req + verdict_req
+        outs = ck.model(reqs)
+        stats["evals"] += len(reqs)
+        api_m = outs[:len(api_req)]
+        gen_m = outs[len(api_req):len(api_req) + len(gen_req)]
+        reg_m = outs[len(api_req) + len(gen_req):len(api_req) + len(gen_req) + len(reg_req)]
+        verdict_m = outs[len(api_req) + len(gen_req) + len(reg_req):]
+        compare("npu_find_block_configs", api_req, api_m, [api_real_str(r) for r in api_real])
+        compare("get_arch_block_config", gen_req, gen_m, gen_real)
+        stats["gen"] += len(gen_req)
+        stats["gen_ok"].update(r for r, x in zip(gen_req, gen_real) if x.startswith("ok"))
+        stats["reg"] += len(reg_req)
+        if gen_req and len(samples_api) < 2:
+            samples_api.append({"request": gen_req[0], "model": gen_m[0], "implementation": gen_real[0]})
+            samples_api.append({"request": reg_req[0], "spec": reg_m[0]})
+        # Lean Spec on the registers the real generator emitted
+        for (oi, ci, where, s_, cfg), v in zip(reg_ref, reg_m):
+            if v != "1":
+                stats["reg_fail"] += 1
+                reg_fail_all.append(v)
+                if stats["reg_fail"] <= 4:
+                    op = batch[oi]
+                    ck.violation("Lean Spec (%s) rejects the SHRAM registers the generator emitted (%s) for offered block config h,w,d=%s"
+                                 % (v, where, cfg), {"operation": op, "accelerator": G["accs"][op["acc"]].value,
+                                                    "block_config_hwd": cfg, "emitted": s_, "spec_verdict": v, "how": where})
+        # offered configurations the generator refuses: the verdict (and its explanation) is Lean's
+        for (oi, ci, g), v in zip(verdict_ref, verdict_m):
+            op = batch[oi]
+            cfg = api_real[oi]["offered"][ci]
+            if op.get("excluded") and v == "rejected:ifm2-shape-derivation":
+                stats["excluded_refused"] += 1
+                ck.count("excluded_point_refused_on:" + G["accs"][op["acc"]].value)
+                continue
+            stats["refused"] += 1
+            ck.count("offered_refused:" + v)
+            ck.count("offered_refused_on:" + G["accs"][op["acc"]].value)
+            what = ("api.npu_find_block_configs offers block config h,w,d=%s on %s for %s %s ifm(w,h,d,q)=%s ofm=%s kernel=%s, "
+                    "register_command_stream_generator refuses it: %s [%s]" % (cfg, G["accs"][op["acc"]].value, op["dtype"], op["kind"],
+                                                                              op["ifm"], op["ofm"], op["kernel"], g, v))
+            replay = {"operation": op, "accelerator": G["accs"][op["acc"]].value, "block_config_hwd": cfg, "generator": g,
+                      "lean_verdict": v, "replay": "./check C15 --replay <this file>  (build_op(operation); api.npu_find_block_configs; "
+                      "op.block_config = NpuShape3D(*block_config_hwd); api.npu_generate_register_command_stream([op], acc))"}
+            if v == "rejected:api-acc40-generator-acc32":
+                ck.violation(what, replay, found_input=True, key=KNOWN_KEY)
+            else:
+                unexplained.append(what)
+                ck.violation(what, replay, found_input=True)
+        # full-stream sample: the registers must be those of the block-config path
+        for oi, r in enumerate(api_real):
+            o = batch[oi]
+            for j_, s_ in r["full"].items():
+                stats["full"] += 1
+                ck.count("full_stream:" + ("regs" if s_.startswith("regs") else s_[:48]))
+                g = r["gen"][j_]
+                if s_.startswith("err:assert") and "does not fit" in s_:
+                    if g.startswith("ok"):
+                        ck.violation("full stream generation refuses an offered config that the block-config path accepted: " + s_,
+                                     {"operation": o, "block_config_hwd": r["offered"][j_]})
+                elif s_.startswith("regs"):
+                    if g.startswith("ok") and g.split("|")[1] != s_:
+                        ck.violation("full stream registers differ from the block-config path: %s vs %s" % (s_, g),
+                                     {"operation": o, "block_config_hwd": r["offered"][j_]})
+                else:
+                    stats["full_other"] += 1
+            ck.count("op_kind:" + o["kind"])
+            ck.count("op_acc:" + G["accs"][o["acc"]].value)
+            ck.count("op_dtype:" + o["dtype"])
+            ck.count("op_upscale:" + o["upscale"])
+            ck.count("op_lut:%d" % o["lut"])
+            ck.count("op_quant:%s" % ("all-scaled" if all(f is None or f[3] == 2 for f in (o["ifm"], o["ifm2"], o["ofm"])) else
+                                      "quant-missing" if any(f is not None and f[3] == 0 for f in (o["ifm"], o["ifm2"], o["ofm"])) else "scale-none"))
+            if o["kind"] == "elementwise":
+                ck.count("op_ew:" + o["ew_mode"])
+            if isinstance(r["offered"], list):
+                ck.count("offered_configs", len(r["offered"]))
+
+    if ck.replay_arg:
+        import json
+        rp = json.load(open(ck.replay_arg))["replay"]
+        if "operation" in rp:
+            o = rp["operation"]
+            for f in ("ifm", "ifm2", "ofm", "kernel"):
+                o[f] = tuple(o[f]) if o.get(f) else None
+            run_ops([o])
+        elif rp.get("function", "").endswith("try_block_config"):
+            c = tuple(tuple(x) if isinstance(x, list) else x for x in rp["arguments"])
+            try_cases[:] = [c]
+            core_cases[:], find_cases[:], area_cases = [], [], []
+        elif rp.get("function", "").endswith("find_block_config"):
+            c = tuple(tuple(x) if isinstance(x, list) else x for x in rp["arguments"])
+            find_cases[:] = [c]
+            core_cases[:], try_cases[:], area_cases = [], [], []
+        if "operation" in rp or "function" not in rp:
+            core_cases[:], try_cases[:], find_cases[:] = [], [], []
+        op_cases = []
+        core_req, try_req, find_req = [req_core(c) for c in core_cases], [req_try(c) for c in try_cases], [req_find(c) for c in find_cases]
+        core_real, try_real, find_real = [real_core(c) for c in core_cases], [real_try(c) for c in try_cases], [real_find(c) for c in find_cases]
+    B = 1500
+    for b0 in range(0, len(op_cases), B):
+        run_ops(op_cases[b0:b0 + B])
 
     # -------- F: get_ifm_area_required ----------------------------------------------------------------
     area_cases = []
-    for _ in range(40000 if T else 3000):
+    for _ in range(0 if ck.replay_arg else (40000 if T else 3000)):
         k = rand_kernel(BT["ConvolutionMxN"])
         area_cases.append((rand_dim(), rand_dim(), k, rng.choice([0, 1, 2])))
     area_req = ["ifmarea %d %d %s %d" % (c[0], c[1], " ".join(map(str, c[2])), c[3]) for c in area_cases]
@@ -610,45 +778,8 @@ def main():
     pool.join()
 
     # =================================================================================================
-    # model answers
+    # A, B, C, F: model answers, Spec on the implementation's layouts
     # =================================================================================================
-    api_req = ["apicfg %d %s" % (o["acc"], op_tokens(o)) for o in op_cases]
-    gen_req, gen_real, gen_ref = [], [], []          # one per offered config
-    reg_req, reg_ref = [], []                       # Spec on emitted registers (D and E)
-    verdict_req, verdict_ref = [], []
-    for oi, (o, r) in enumerate(zip(op_cases, api_real)):
-        if not isinstance(r["offered"], list):
-            continue
-        toks = op_tokens(o)
-        kind = o["kind"]
-        usage = 0 if kind != "elementwise" else (1 if (o["ifm2"] and not o["scalar"]) else 2)
-        kk = o["kernel"] or (1, 1, 1, 1, 1, 1)
-        pk = kind == "conv2d" and o["pk_first"]
-        view = view_tokens(usage, kind in ("depthwise", "pooling", "elementwise"), DT_BITS[o["dtype"]], o["ifm"][2], pk, kk,
-                           RS.index(o["upscale"]), o["ofm"][1], o["lut"])
-        for ci, (cfg, g) in enumerate(zip(r["offered"], r["gen"])):
-            gen_req.append("gencfg %d %s %d %d %d" % (o["acc"], toks, *cfg))
-            gen_real.append(g.split("|")[0] if g.startswith("ok") else g.split(":")[0] + ":" + g.split(":")[1])
-            gen_ref.append((oi, ci))
-            accepted = g.startswith("ok")
-            verdict_req.append("offerverdict %d %s %d %d %d %d" % (o["acc"], toks, *cfg, int(accepted)))
-            verdict_ref.append((oi, ci, g))
-            if accepted:
-                rs_ = g.split("|")[1].split()
-                # regs bh bw bd ib_end ab_start ib2|- fmt
-                has2 = rs_[6] != "-"
-                reg_req.append("regcheck %d %s %s %s %s %s %s %s %d %s" % (o["acc"], view, rs_[2], rs_[1], rs_[3], rs_[7], rs_[4], rs_[5],
-                                                                          int(has2), rs_[6] if has2 else "0"))
-                reg_ref.append((oi, ci, "block-config path", g, cfg))
-        for j, s in r["full"].items():
-            if s.startswith("regs"):
-                rs_ = s.split()
-                has2 = rs_[6] != "-"
-                reg_req.append("regcheck %d %s %s %s %s %s %s %s %d %s" % (o["acc"], view, rs_[2], rs_[1], rs_[3], rs_[7], rs_[4], rs_[5],
-                                                                          int(has2), rs_[6] if has2 else "0"))
-                reg_ref.append((oi, j, "full stream", s, r["offered"][j]))
-
-    # Spec on implementation layouts of B and C
     spec_req, spec_ref = [], []
     for c, real in zip(try_cases, try_real):
         ai, bt, blk, ofm, ifm, ifm2, scalar, bits, pk, k, lut, scaled, rs = c
@@ -673,8 +804,9 @@ def main():
         spec_ref.append(("find_block_config", c, real))
 
     find_req_q = [req_find(c, "findcfgq") for c in find_cases]
-    all_req = core_req + try_req + find_req + api_req + gen_req + area_req + find_req_q + spec_req + reg_req + verdict_req
+    all_req = core_req + try_req + find_req + area_req + find_req_q + spec_req
     outs = ck.model(all_req)
+    stats["evals"] += len(all_req)
     pos = 0
 
     def take(n):
@@ -683,87 +815,23 @@ def main():
         pos += n
         return r
 
-    core_m, try_m, find_m, api_m, gen_m, area_m, find_q = (take(len(x)) for x in
-                                                         (core_req, try_req, find_req, api_req, gen_req, area_req, find_req_q))
-    spec_m, reg_m, verdict_m = take(len(spec_req)), take(len(reg_req)), take(len(verdict_req))
-
-    # =================================================================================================
-    # verdicts
-    # =================================================================================================
-    def api_real_str(r):
-        if r["offered"] == "build:err:assert":
-            return "err:assert"      # NpuKernel itself refuses a zero stride/dilation: nothing reaches the query
-        if isinstance(r["offered"], list):
-            return "ok " + " ".join("%d %d %d" % c for c in r["offered"])
-        return r["offered"]
-
-    disagreements = []      # (stream, request, model, implementation)
-    for name, reqs, ms, rs_ in (("_try_block_config", core_req, core_m, core_real), ("try_block_config", try_req, try_m, try_real),
-                                ("find_block_config", find_req, find_m, find_real),
-                                ("npu_find_block_configs", api_req, api_m, [api_real_str(r) for r in api_real]),
-                                ("get_arch_block_config", gen_req, gen_m, gen_real),
-                                ("get_ifm_area_required", area_req, area_m, area_real)):
-        for rq, m, r in zip(reqs, ms, rs_):
-            ck.count("%s:%s" % (name, r.split()[0].split(":")[0] + (":" + r.split(":")[1].split()[0] if r.startswith("err") else "")))
-            if name == "get_arch_block_config" and r.startswith("err:assert"):
-                r = "err:assert"
-            if m != r:
-                disagreements.append((name, rq, m, r))
-    # Spec checker on the implementation's layouts / registers
+    core_m, try_m, find_m, area_m, find_q, spec_m = (take(len(x)) for x in (core_req, try_req, find_req, area_req, find_req_q, spec_req))
+    compare("_try_block_config", core_req, core_m, core_real)
+    compare("try_block_config", try_req, try_m, try_real)
+    compare("find_block_config", find_req, find_m, find_real)
+    compare("get_ifm_area_required", area_req, area_m, area_real)
     spec_fail = [(ref, o) for ref, o in zip(spec_ref, spec_m) if o != "1"]
-    reg_fail = [(ref, o) for ref, o in zip(reg_ref, reg_m) if o != "1"]
     for (fn, c, real), o in spec_fail[:4]:
         ck.violation("Lean Spec (%s) rejects the layout returned by %s: %s" % (o, fn, real),
                      {"function": "architecture_allocator." + fn, "accelerator": G["accs"][c[0]].value, "arguments": c,
                       "implementation_result": real, "spec_verdict": o, "request": req_try(c) if fn == "try_block_config" else req_find(c)})
-    for (oi, ci, where, s, cfg), o in reg_fail[:4]:
-        op = op_cases[oi]
-        ck.violation("Lean Spec (%s) rejects the SHRAM registers the generator emitted (%s) for offered block config h,w,d=%s"
-                     % (o, where, cfg), {"operation": op, "accelerator": G["accs"][op["acc"]].value, "block_config_hwd": cfg,
-                                        "emitted": s, "spec_verdict": o, "how": where})
-    # offered configurations the generator refuses
-    refused = [(ref, v) for ref, v in zip(verdict_ref, verdict_m) if v != "accepted"]
-    unexplained = []
-    for (oi, ci, g), v in refused:
-        op = op_cases[oi]
-        cfg = api_real[oi]["offered"][ci]
-        ck.count("offered_refused:" + v)
-        ck.count("offered_refused_on:" + G["accs"][op["acc"]].value)
-        what = ("api.npu_find_block_configs offers block config h,w,d=%s on %s for %s %s ifm(w,h,d,q)=%s ofm=%s kernel=%s, "
-                "register_command_stream_generator refuses it: %s [%s]" % (cfg, G["accs"][op["acc"]].value, op["dtype"], op["kind"],
-                                                                          op["ifm"], op["ofm"], op["kernel"], g, v))
-        replay = {"operation": op, "accelerator": G["accs"][op["acc"]].value, "block_config_hwd": cfg, "generator": g,
-                  "lean_verdict": v, "replay": "build_op(operation) in harness/check_C15.py; api.npu_find_block_configs; "
-                  "op.block_config = NpuShape3D(*block_config_hwd); api.npu_generate_register_command_stream([op], acc)"}
-        if v == "rejected:api-acc40-generator-acc32":
-            ck.violation(what, replay, found_input=True, key=KNOWN_KEY)
-        else:
-            unexplained.append(what)
-            ck.violation(what, replay, found_input=True)
-    # full-stream sample: an assertion about the block config there is a refusal as well
-    full_other = 0
-    for oi, r in enumerate(api_real):
-        for j, s in r["full"].items():
-            ck.count("full_stream:" + ("regs" if s.startswith("regs") else s[:48]))
-            if s.startswith("err:assert") and "does not fit" in s:
-                g = r["gen"][j]
-                if g.startswith("ok"):
-                    ck.violation("full stream generation refuses an offered config that the block-config path accepted: " + s,
-                                 {"operation": op_cases[oi], "block_config_hwd": r["offered"][j]})
-            elif s.startswith("regs"):
-                g = r["gen"][j]
-                if g.startswith("ok") and g.split("|")[1] != s:
-                    ck.violation("full stream registers differ from the block-config path: %s vs %s" % (s, g),
-                                 {"operation": op_cases[oi], "block_config_hwd": r["offered"][j]})
-            else:
-                full_other += 1
-    if disagreements and not (spec_fail or reg_fail or unexplained):
+    if disagreements and not (spec_fail or stats["reg_fail"] or unexplained):
         # failing-input search came back empty: the Spec accepted every implementation output above
         name, rq, m, r = min(disagreements, key=lambda d: len(d[1]))
         ck.violation("correspondence Model/Shram.lean vs %s broken on %d inputs (%s)" % (
             name, len(disagreements), ", ".join(sorted({d[0] for d in disagreements}))),
             {"correspondence": name, "request": rq, "model": m[:600], "implementation": r[:600],
-             "searched": "Lean Spec on %d implementation layouts and %d emitted register sets: no rejection" % (len(spec_req), len(reg_req))},
+             "searched": "Lean Spec on %d implementation layouts and %d emitted register sets: no rejection" % (len(spec_req), stats["reg"])},
             found_input=False)
 
     # =================================================================================================
@@ -781,49 +849,39 @@ def main():
                 ck.count("find_conv1d_fit_applied")
             if t[15] == "40":
                 ck.count("find_acc40")
-    for o, r in zip(op_cases, api_real):
-        ck.count("op_kind:" + o["kind"])
-        ck.count("op_dtype:" + o["dtype"])
-        ck.count("op_upscale:" + o["upscale"])
-        ck.count("op_lut:%d" % o["lut"])
-        ck.count("op_quant:%s" % ("all-scaled" if all(f is None or f[3] == 2 for f in (o["ifm"], o["ifm2"], o["ofm"])) else
-                                  "quant-missing" if any(f is not None and f[3] == 0 for f in (o["ifm"], o["ifm2"], o["ofm"])) else "scale-none"))
-        if o["kind"] == "elementwise":
-            ck.count("op_ew:" + o["ew_mode"])
-        if isinstance(r["offered"], list):
-            ck.count("offered_configs", len(r["offered"]))
     branches = {"_try_block_config:none", "_try_block_config:ok", "_try_block_config:err:assert", "try_block_config:none",
                 "try_block_config:ok", "try_block_config:err:key", "find_block_config:ok", "find_block_config:none",
                 "npu_find_block_configs:ok", "npu_find_block_configs:err:assert", "get_arch_block_config:ok",
                 "find_conv1d_fit_applied", "find_acc40", "find_float_choice_differs_from_exact_rational"}
-    unreached = sorted(b for b in branches if b not in ck.counters)
-    if KNOWN_KEY not in ck.known_hits and not refused:
+    unreached = [] if ck.replay_arg else sorted(b for b in branches if b not in ck.counters)
+    if KNOWN_KEY not in ck.known_hits and not stats["refused"] and not ck.replay_arg:
         unreached.append("offered-config-refused (none seen: api and generator derive the same arguments on this tree)")
     nontrivial = len({r for r, x in zip(core_req, core_real) if x.startswith("ok")}) + \
         len({r for r, x in zip(try_req, try_real) if x.startswith("ok")}) + \
-        len({r for r, x in zip(find_req, find_real) if x.startswith("ok")}) + \
-        len({r for r, x in zip(gen_req, gen_real) if x.startswith("ok")})
+        len({r for r, x in zip(find_req, find_real) if x.startswith("ok")}) + len(stats["gen_ok"])
     if find_req:
         ck.sample({"request": find_req[-1], "model": find_m[-1], "implementation": find_real[-1]})
-    if gen_req:
-        ck.sample({"request": gen_req[0], "model": gen_m[0], "implementation": gen_real[0]})
-        ck.sample({"request": reg_req[0], "spec": reg_m[0]})
+    for s_ in samples_api:
+        ck.sample(s_)
     if spec_req:
         ck.sample({"request": spec_req[0], "spec": spec_m[0]})
     ck.finish({
-        "evaluations": len(all_req),
+        "evaluations": stats["evals"],
         "distinct_nontrivial": nontrivial,
         "rule": "case = one call of _try_block_config / try_block_config / find_block_config / (operation, offered block config) "
                 "through get_arch_block_config+generate_block_config+generate_shram_registers; non-trivial when a layout / config is "
                 "returned; distinct by request line",
         "operations": len(op_cases),
-        "offered_configs_checked_against_generator": len(gen_req),
-        "full_streams_generated": sum(len(r["full"]) for r in api_real),
-        "full_streams_unrelated_errors": full_other,
+        "offered_configs_checked_against_generator": stats["gen"],
+        "full_streams_generated": stats["full"],
+        "full_streams_unrelated_errors": stats["full_other"],
         "spec_checked_layouts": len(spec_req),
-        "spec_checked_register_sets": len(reg_req),
-        "spec_rejections": len(spec_fail) + len(reg_fail),
-        "offered_but_refused": len(refused),
+        "spec_checked_register_sets": stats["reg"],
+        "spec_rejections": len(spec_fail) + stats["reg_fail"],
+        "offered_but_refused": stats["refused"],
+        "excluded_points_refused": stats["excluded_refused"],
+        "excluded_points_note": "conv2d carrying a scalar IFM2 (outside the property's quantifier): api.py passes the IFM2 Block, the "
+                                "generator passes None; refusals there are explained by theorem offered_needs_ifm2_witness",
         "disagreements": len(disagreements),
         "disagreement_examples": [list(d) for d in disagreements[:3]],
         "unreached_branches": unreached,
